@@ -63,8 +63,11 @@ Definition single_line (s : text) : bool := negb (has_char 10 s) && negb (has_ch
 (* configuration text written as it is into a gantt header line *)
 Definition plain_cfg_text (s : text) : bool := single_line s && negb (has_char 35 s).
 
-(* dates for which strftime prints what fmt_dmy prints: years 1000..9999 *)
-Definition date_ok (t : Z) : bool := (-30610224000000000 <=? t) && (t <? 253402300800000000).
+(* dates for which strftime prints what fmt_dmy prints: year 1000..9999 (four digits), the other
+   fields at most two digits (true of every datetime; checked, not proved, for the civil-date arithmetic) *)
+Definition date_ok (t : Z) : bool :=
+  let '(y, m, d, hh, mm) := minute_fields t in
+  ((1000 <=? y) && (y <? 10000) && (m <? 100) && (d <? 100) && (hh <? 100) && (mm <? 100))%N.
 
 Definition numtext_ok (s : text) : bool :=
   match s with [] => false | _ => forallb is_numchar s end.
